@@ -63,6 +63,9 @@ pub enum Op {
     /// wrap_iter over `items` items, consumed with nth(k) calls until one returns None (what skip / step_by
     /// are built on): one inc per item taken from the inner iterator, also by the call that runs past the end
     IterNth { items: u8, k: u8 },
+    /// wrap_iter over `.0` items consumed by for_each / fold: inside the closure the position already
+    /// counts the item it is handed
+    IterForEach(u8),
 }
 
 #[derive(Debug, Clone, Serialize, Deserialize)]
@@ -110,6 +113,7 @@ fn op_strategy() -> BoxedStrategy<Op> {
         1 => (0u8..20, 0u8..40).prop_map(|(a, b)| Op::AsyncReadPrefilled(a, b)),
         1 => (0u8..30, 0u8..30).prop_map(|(a, b)| Op::WriteAllFailing(a, b)),
         1 => (0u8..9, 0u8..4).prop_map(|(items, k)| Op::IterNth { items, k }),
+        1 => (0u8..6).prop_map(Op::IterForEach),
         2 => (0u8..6, proptest::option::weighted(0.4, 0u8..6), 0u8..3).prop_map(|(items, abandon_at, extra)| Op::IterDrain { items, abandon_at, extra }),
     ]
     .boxed()
@@ -229,6 +233,13 @@ fn run_hist(c: &HistCase) -> CaseResult {
                 let mut it = pb.wrap_iter(0..*items);
                 while it.nth(*k as usize).is_some() {}
             }
+            Op::IterForEach(items) => {
+                let start = pb.position();
+                let seen = std::cell::RefCell::new(vec![]);
+                pb.wrap_iter(0..*items).for_each(|_| seen.borrow_mut().push(pb.position().wrapping_sub(start)));
+                let want: Vec<u64> = (1..=*items as u64).collect();
+                assert_eq!(*seen.borrow(), want, "positions seen from inside for_each, relative to the start");
+            }
             Op::IterDrain { items, abandon_at, extra } => {
                 let mut it = pb.wrap_iter(0..*items);
                 let mut j = 0u8;
@@ -257,7 +268,7 @@ fn run_hist(c: &HistCase) -> CaseResult {
             Op::SeekCurrentZero(k) => pos = *k as u64,
             Op::ReadToString(_, n) | Op::AsyncReadPrefilled(_, n) => pos = pos.wrapping_add(*n as u64),
             Op::WriteAllFailing(n, accept) => pos = pos.wrapping_add((*n).min(*accept) as u64),
-            Op::IterNth { items, .. } => {
+            Op::IterNth { items, .. } | Op::IterForEach(items) => {
                 pos = pos.wrapping_add(*items as u64);
                 if !finished {
                     finished = true;
@@ -319,7 +330,7 @@ fn run_hist(c: &HistCase) -> CaseResult {
         }
         let (gp, gl) = catch(|| (pb.position(), pb.length())).map_err(|p| Fail::new("panic", format!("getter panicked after op #{i} {op:?}: {p}")))?;
         let kind = match op {
-            Op::Finish | Op::FinishWithMessage | Op::FinishAndClear | Op::FinishUsingStyle | Op::Abandon | Op::AbandonWithMessage | Op::IterDrain { .. } | Op::IterNth { .. } => "position_finish",
+            Op::Finish | Op::FinishWithMessage | Op::FinishAndClear | Op::FinishUsingStyle | Op::Abandon | Op::AbandonWithMessage | Op::IterDrain { .. } | Op::IterNth { .. } | Op::IterForEach(_) => "position_finish",
             _ => "position",
         };
         ensure!(gp == pos, kind, "after op #{i} {op:?}: position() = {gp}, history defines {pos} (ops {:?})", &c.ops[..=i]);
@@ -412,6 +423,10 @@ pub struct ConcCase {
     /// (`progress_with(..).rev()`): every item a worker takes is one more increment
     #[serde(default)]
     rayon_rev: u16,
+    /// afterwards a rayon pipeline over this many items that stops early (`find_any` / `find_first` /
+    /// `any`): every item the adaptor hands on is one increment, items never taken are none
+    #[serde(default)]
+    rayon_find: u16,
 }
 
 fn run_conc(c: &ConcCase) -> CaseResult {
@@ -501,6 +516,33 @@ fn run_conc(c: &ConcCase) -> CaseResult {
         ensure!(seen.load(Ordering::Relaxed) == c.rayon_rev as u64, "harness", "rayon pipeline lost items");
         expect = expect.wrapping_add(c.rayon_rev as u64);
     }
+    if c.rayon_find > 0 {
+        use indicatif::ParallelProgressIterator;
+        use rayon::prelude::*;
+        let n = c.rayon_find as u32;
+        let items: Vec<u32> = (0..n).collect();
+        let target = n / 3;
+        let passed = std::sync::atomic::AtomicU64::new(0);
+        let tap = |x: u32| {
+            passed.fetch_add(1, Ordering::SeqCst);
+            x
+        };
+        let before = pb.position();
+        catch(|| match n % 3 {
+            0 => assert_eq!(items.par_iter().copied().progress_with(pb.clone()).map(tap).find_any(|x| *x == target), Some(target)),
+            1 => assert_eq!(items.par_iter().copied().progress_with(pb.clone()).map(tap).find_first(|x| *x >= target), Some(target)),
+            _ => assert!(items.par_iter().copied().progress_with(pb.clone()).map(tap).any(|x| x == target)),
+        })
+        .map_err(|p| Fail::new("panic", format!("short-circuiting rayon pipeline over {n} items panicked: {p}")))?;
+        let passed = passed.load(Ordering::SeqCst);
+        let got = pb.position();
+        ensure!(
+            got == before.wrapping_add(passed),
+            "lost_update",
+            "a rayon pipeline over {n} items that stops early handed {passed} items on, position() went from {before} to {got}"
+        );
+        expect = expect.wrapping_add(passed);
+    }
     let got = pb.position();
     ensure!(got == expect, "lost_update", "after {} threads finished: position() = {got}, the sum of all deltas gives {expect}", c.threads.len());
     let got_len = pb.length();
@@ -512,6 +554,7 @@ fn run_conc(c: &ConcCase) -> CaseResult {
     v.label_if(c.threads.iter().any(|t| t.clone), "clones");
     v.label_if(c.reader, "concurrent_reader");
     v.label_if(c.rayon_rev > 0, "rayon_pipeline_driven_from_the_back");
+    v.label_if(c.rayon_find > 1, "rayon_pipeline_that_stops_early");
     v.label_if(c.threads.iter().filter(|t| t.len_ops).count() >= 2, "concurrent_length_adjustments");
     Ok(v)
 }
@@ -526,8 +569,8 @@ fn conc_strategy(tier: Tier) -> BoxedStrategy<ConcCase> {
         any::<bool>(),
     )
         .prop_map(|(n_ops, deltas, dec_mask, clone, len_ops)| ThreadPlan { n_ops, deltas, dec_mask, clone, len_ops });
-    (special_u64(), proptest::collection::vec(plan, 1..=16), any::<bool>(), any::<bool>(), prop_oneof![1 => Just(0u16), 1 => 1u16..3000])
-        .prop_map(|(start, threads, visible, reader, rayon_rev)| ConcCase { start, threads, visible, reader, rayon_rev })
+    (special_u64(), proptest::collection::vec(plan, 1..=16), any::<bool>(), any::<bool>(), prop_oneof![1 => Just(0u16), 1 => 1u16..3000], prop_oneof![1 => Just(0u16), 1 => 1u16..3000])
+        .prop_map(|(start, threads, visible, reader, rayon_rev, rayon_find)| ConcCase { start, threads, visible, reader, rayon_rev, rayon_find })
         .boxed()
 }
 
@@ -599,7 +642,7 @@ pub fn property() -> Property {
                 cases: |t| t.pick(60, 1_500),
                 run: run_conc,
                 signature: no_signature,
-                essential: &["two_or_more_threads", "inc_and_dec_mixed", "clones", "concurrent_reader", "concurrent_length_adjustments", "rayon_pipeline_driven_from_the_back"],
+                essential: &["two_or_more_threads", "inc_and_dec_mixed", "clones", "concurrent_reader", "concurrent_length_adjustments", "rayon_pipeline_driven_from_the_back", "rayon_pipeline_that_stops_early"],
                 workers: 2,
                 decode: None,
             }),
